@@ -64,6 +64,11 @@ def programs(tier, pid):
     P10 = mkprog("P10", [T("G"), T("B", glob=["*.x"], cand=["a.x", "g.x"], deps=["G"])], ["a.x", "g.x"], init={"a.x": 0, "g.x": 9},
                  reqsets=[["B"], ["G"], ["G", "B"]], failsets=[[], ["B"]])
     P10["effects"] = {"G": [["g.x", 1]]}
+    # a rewriting task between two tasks that share a file: L reads f.txt, G (after L) makes f.txt a copy of s.txt, K (after G) reads
+    # f.txt -- what K sees is not what L saw in the same run (a per-run memo of file contents records the wrong digest for K)
+    P11 = mkprog("P11", [T("L", lit=["f.txt"]), T("G", deps=["L"]), T("K", lit=["f.txt"], deps=["G"])], ["f.txt", "s.txt"], init={"f.txt": 0, "s.txt": 1},
+                 reqsets=[["K"], ["L"], ["G"]], failsets=[[], ["K"]])
+    P11["effects"] = {"G": [["f.txt", "=s.txt"]]}
     P7 = mkprog("P7", [T("A", lit=["a.txt"]), T("B", lit=["b.txt"]), T("D", lit=["a.txt", "b.txt"], deps=["A", "B"])], ["a.txt", "b.txt"])
     if pid == "C10":
         # kill points multiply the alphabet: smaller programs
@@ -83,11 +88,11 @@ def programs(tier, pid):
             p["failsets"] = [[]] + [[n] for n in names]
         return ps
     if tier == "quick":
-        ps = [P1, P5, P4] if pid == "C14" else [P1, P3, P4, P2, P8, P9, P10]
+        ps = [P1, P5, P4] if pid == "C14" else [P1, P3, P4, P2, P8, P9, P10, P11]
     else:
         for p in (P1, P3, P5, P7):
             p["ncontents"] = 3
-        ps = [P1, P2, P3, P4, P5, P6, P7, P8, P9, P10]
+        ps = [P1, P2, P3, P4, P5, P6, P7, P8, P9, P10, P11]
         for p in ps:
             p["reps"] = 4
     return ps
